@@ -43,7 +43,7 @@ STUB = ["choice of the running worker thread (baton scheduler, line events in mo
 ASSUMPTIONS = ["the eval'd equation lambdas and numpy/pandas run atomically between two pre-emption points",
                "double evaluation of an equation is allowed; a second VALUE for one (element, time) is not"]
 FAULT_KINDS = ["preemption"]
-PROBES = ["scenario_constant_then_scenario_reset", "long_stochastic_run", "edit_landed_inside_a_run", "stochastic_scenario_run_repeatedly", "read_via_memoize", "read_via_call", "read_via_plot", "decimal_dt_race", "edit_after_dependant_read", "initial_value_edit", "preempted_between_check_and_store", "fresh_called_twice_for_one_time",
+PROBES = ["first_equation_after_dependants_were_read", "failed_modelling_call", "scenario_constant_then_scenario_reset", "long_stochastic_run", "edit_landed_inside_a_run", "stochastic_scenario_run_repeatedly", "read_via_memoize", "read_via_call", "read_via_plot", "decimal_dt_race", "edit_after_dependant_read", "initial_value_edit", "preempted_between_check_and_store", "fresh_called_twice_for_one_time",
           "run_repeated", "scenario_reset_cache"]
 EXHAUSTIVE = {"quick": False, "thorough": False}
 
@@ -90,6 +90,8 @@ def build(defs, start, stop, dt):
     m.constants["k1"].equation = float(defs["k1"])
     m.constants["k2"].equation = float(defs["k2"])
     for n in ("c1", "c2", "f1", "b1"):
+        if defs[n] is None:
+            continue        # declared and used by others, but not defined yet (it evaluates to 0.0 until it gets an equation)
         (m.converters if n.startswith("c") else m.flows if n == "f1" else m.biflows)[n].equation = _eq(m, n, defs[n])
     for n in ("s1", "s2"):
         iv = defs[n + "_init"]
@@ -211,7 +213,13 @@ def generate(spec):
             ops.append({"op": "scenario_constant", "elem": rng.choice(["k1", "k2"]), "value": rng.choice([0.0, 0.5, 1.0, 3.0, -2.0])})
         else:
             ops.append({"op": "scenario_reset_cache"})
-    return {"property": PROPERTY, "kind": "edit", "start": start, "stop": stop, "dt": dt, "ops": ops,
+    late = rng.choice([None, None, "c2", "b1"])        # an element that gets its FIRST equation only during the history
+    if late and not any(o["op"] == "set_equation" and o["elem"] == late for o in ops):
+        ops.insert(rng.randint(1, len(ops)), {"op": "set_equation", "elem": late, "idx": rng.randrange(NTPL[late])})
+    if rng.random() < 0.15:
+        # a modelling call that FAILS (an arrayed stock set up with integer initial values) and is shrugged off by the caller
+        ops.insert(rng.randint(0, len(ops)), {"op": "failed_setup"})
+    return {"property": PROPERTY, "kind": "edit", "start": start, "stop": stop, "dt": dt, "ops": ops, "late": late,
             # which reading API the history and the oracle use (they differ in which bookkeeping they touch), and whether
             # every element is observed after every operation or only at the end (observation is itself an operation)
             "via": rng.choice(["evaluate_equation", "memoize", "call", "plot"]), "observe": rng.choice(["each", "each", "end"]),
@@ -397,6 +405,9 @@ def _execute_edit(case):
     start, stop, dt = case["start"], case["stop"], case["dt"]
     grid = _grid(start, stop, dt)
     defs = dict(DEFS0)
+    if case.get("late"):
+        defs[case["late"]] = None
+        res.probe("first_equation_after_dependants_were_read")
     live = build(defs, start, stop, dt)
     scen = SimulationScenario(dictionary={}, name="s", model=live, scenario_manager_name="m")
     read_since_edit = set()
@@ -534,6 +545,13 @@ def _execute_edit(case):
                 res.violate("C08.a-stale-after-edit", {"op_index": n_op, "op": op, "columns": bad, "via": "SdSimulation.start",
                                                        "last_edit": last_edit[0]})
             read_since_edit |= set(op["equations"])
+        elif kind == "failed_setup":
+            res.probe("failed_modelling_call")
+            try:
+                live.stock("scratch%d" % n_op).setup_vector(2, [1, 2])
+                res.violate("C08.a-edit-raised", {"op_index": n_op, "op": op, "exception": "expected ElementError was not raised"})
+            except Exception:
+                pass
         elif kind == "scenario_constant":
             if read_since_edit:
                 res.probe("edit_after_dependant_read")
